@@ -48,6 +48,9 @@ pub fn fork_run<F: FnOnce() -> i32>(timeout_ms: u64, f: F) -> Status {
             libc::setpgid(0, 0);
             let lim = libc::rlimit { rlim_cur: 0, rlim_max: 0 };
             libc::setrlimit(libc::RLIMIT_CORE, &lim);
+            // an absurd allocation fails at once instead of depending on the machine's memory
+            let asl = libc::rlimit { rlim_cur: 8 << 30, rlim_max: 8 << 30 };
+            libc::setrlimit(libc::RLIMIT_AS, &asl);
             libc::atexit(atexit_marker);
         }
         let code = match catch_unwind(AssertUnwindSafe(f)) {
@@ -280,6 +283,20 @@ fn probe_default(args: &Args) {
                 Obj::new("emulate").int("sig", sig as i64).str("ctx", "other_pending").int("other", other as i64).str("status", &st.text).raw("r", &kv_json(&st.report)).done()
             );
         }
+        // emulation on a thread other than the main one (the usual signal-loop-thread set-up)
+        if (1..=64).contains(&sig) && sig != 32 && sig != 33 {
+            let st = fork_run(3000, || {
+                let h = std::thread::spawn(move || match signal_hook::low_level::emulate_default_handler(sig) {
+                    Ok(()) => 0,
+                    Err(_) => 3,
+                });
+                h.join().unwrap_or(9)
+            });
+            println!(
+                "{}",
+                Obj::new("emulate").int("sig", sig as i64).str("ctx", "thread").str("status", &st.text).raw("r", &kv_json(&st.report)).done()
+            );
+        }
         // emulation with the signal blocked by the mask (outside a handler)
         if (1..=64).contains(&sig) {
             let st = fork_run(3000, || {
@@ -468,9 +485,11 @@ fn probe_reject(args: &Args) {
         "registry_register_signal_unchecked", "registry_register_unchecked",
     ];
     let nums: Vec<c_int> = if args.flag("all") {
-        (-2..=130).chain([i32::MIN, i32::MAX].into_iter()).collect()
+        // 138 = 128 + SIGUSR1, 266 = 256 + SIGUSR1: numbers that alias a signal already in use when
+        // reduced modulo a table size
+        (-2..=140).chain([266, 1 << 30, i32::MIN, i32::MAX].into_iter()).collect()
     } else {
-        vec![-1, 0, 4, 8, 9, 11, 19, 10, 15, 32, 33, 34, 64, 65, 127, 128, 129, i32::MAX]
+        vec![-1, 0, 4, 8, 9, 11, 19, 10, 15, 32, 33, 34, 64, 65, 127, 128, 129, 138, 140, 266, i32::MAX]
     };
     // process state before the call: fresh | other signals in use | a forbidden signal was once
     // taken over through an unchecked entry point (and released again)
@@ -1043,6 +1062,84 @@ fn probe_pipe(args: &Args) {
 }
 
 // ---------------------------------------------------------------------------------------------
+// C05: sequential histories on the registry of a FRESH process (nothing initialised by anybody)
+// ---------------------------------------------------------------------------------------------
+
+/// History letters: R<sig> register a counting action ; U<k> unregister the k-th registration of
+/// the history (1-based) ; S<sig> unregister_signal ; D<sig> raise(sig) and report how many of
+/// the history's actions ran.
+fn probe_fresh(args: &Args) {
+    let histories: Vec<String> = args
+        .get("histories")
+        .unwrap_or("S10;S10,R10,D10;S10,S12,R12,D12,S12,D12;R10,U1,U1,S10,D10;R10,R10,S10,S10,R10,D10;U1;R10,R12,U2,D12,D10,S10,D10")
+        .split(';')
+        .map(|s| s.to_string())
+        .collect();
+    for hist in &histories {
+        let st = fork_run(8000, || {
+            let ran = Arc::new(AtomicUsize::new(0));
+            let mut ids: Vec<signal_hook_registry::SigId> = Vec::new();
+            for tok in hist.split(',') {
+                let (k, rest) = tok.split_at(1);
+                let n: i64 = rest.parse().unwrap_or(0);
+                let res: i64 = match catch_unwind(AssertUnwindSafe(|| match k {
+                    "R" => {
+                        let r = Arc::clone(&ran);
+                        match unsafe { signal_hook_registry::register(n as c_int, move || { r.fetch_add(1, Ordering::SeqCst); }) } {
+                            Ok(id) => {
+                                ids.push(id);
+                                1
+                            }
+                            Err(_) => 0,
+                        }
+                    }
+                    "U" => match ids.get(n as usize - 1) {
+                        Some(id) => signal_hook_registry::unregister(*id) as i64,
+                        None => -1,
+                    },
+                    "S" => {
+                        #[allow(deprecated)]
+                        let r = signal_hook_registry::unregister_signal(n as c_int);
+                        r as i64
+                    }
+                    _ => {
+                        let before = ran.load(Ordering::SeqCst);
+                        unsafe { libc::raise(n as c_int) };
+                        (ran.load(Ordering::SeqCst) - before) as i64
+                    }
+                })) {
+                    Ok(v) => v,
+                    Err(_) => -99,
+                };
+                report(&format!("{}|{}|{};", k, n, res));
+            }
+            0
+        });
+        println!(
+            "{}",
+            Obj::new("fresh")
+                .str("hist", hist)
+                .raw(
+                    "ops",
+                    &format!(
+                        "[{}]",
+                        hist.split(',')
+                            .map(|t| {
+                                let (k, rest) = t.split_at(1);
+                                format!("[\"{}\",{}]", k, rest.parse::<i64>().unwrap_or(0))
+                            })
+                            .collect::<Vec<_>>()
+                            .join(",")
+                    ),
+                )
+                .str("status", &st.text)
+                .raw("r", &kv_json(&st.report))
+                .done()
+        );
+    }
+}
+
+// ---------------------------------------------------------------------------------------------
 // C12: Signals instances and rejected additions
 // ---------------------------------------------------------------------------------------------
 
@@ -1408,6 +1505,7 @@ pub fn main(args: &Args, which: &str) -> i32 {
         "reject" => probe_reject(args),
         "pipe" => probe_pipe(args),
         "signals" => probe_signals(args),
+        "fresh" => probe_fresh(args),
         "origin" => probe_origin(args),
         _ => {
             eprintln!("unknown probe {}", which);
